@@ -422,6 +422,25 @@ func propC19(c *ctx) error {
 					}
 				}
 			}
+			// loading the same file system a SECOND time into the same manager registers every matching file again: the
+			// duplicate-name error (nothing is "already parsed")
+			if faultKind == "none" {
+				var err2 error
+				func() {
+					defer func() {
+						if x := recover(); x != nil {
+							err2 = fmt.Errorf("panic: %v", x)
+						}
+					}()
+					err2 = m.Parse(ifs, match)
+				}()
+				res.count("second_parse")
+				if len(wantFiles) > 0 && !errors.Is(err2, html.ErrDuplicatedTplName) {
+					res.violate(cs, "duplicate-name error", fmt.Sprint(err2), "parsing the same files a second time into one manager does not fail with the duplicate-name error")
+				} else if len(wantFiles) == 0 && err2 != nil {
+					res.violate(cs, "nil (nothing matches)", fmt.Sprint(err2), "a second parse that matches nothing fails")
+				}
+			}
 			if err := m.Add(firstOr(wantTpls, "fresh-name"), strings.NewReader("x")); len(wantTpls) > 0 && !errors.Is(err, html.ErrDuplicatedTplName) {
 				res.violate(cs, "duplicate-name error", fmt.Sprint(err), "a second registration of a name does not fail with the duplicate-name error")
 			}
